@@ -22,6 +22,7 @@ type Work struct {
 	Src   string
 	Input string
 	Data  string // contents of the file the program reads with getline < DATA
+	Mode  string // "": default; "csv": CSV input with header and CSV output; "tsv": TSV input, default output
 }
 
 func lines(n int, f func(i int) string) string {
@@ -50,7 +51,7 @@ $0 !~ /beta-0$/ { nb++ }
 { s = $0; c += gsub(/[aeiou]/, "#", s); sub(/line/, "L", s); if (NR % 10 == 0) print s }
 /^line5 /, /^line8 / { rng = rng "," NR }
 END { n = split("a1b22c333d", parts, /[0-9]+/); printf "%d %d %d %d %d %d %s %d %s\n", n3, low, nb, ms, ml, c, rng, n, parts[4] }
-`, in, ""},
+`, in, "", ""},
 		{"functions-arrays", `
 function fib(n) { return n < 2 ? n : fib(n-1) + fib(n-2) }
 function fill(a, n,   i) { for (i = 1; i <= n; i++) a[i] = i * i; return n }
@@ -60,7 +61,7 @@ function rev(s,   i, r) { for (i = length(s); i > 0; i--) r = r substr(s, i, 1);
 BEGIN { print fib(15); fill(sq, 12); print sum(sq), loc(9), rev("hello world") }
 { cnt[$2]++; tot[$2] += $3 }
 END { for (i = 0; i < 7; i++) printf "%s=%d/%d ", "alpha" i, cnt["alpha" i], tot["alpha" i]; print ""; delete cnt; print length(cnt) }
-`, in, ""},
+`, in, "", ""},
 		{"getline-printf", `
 BEGIN {
   while ((getline ln < DATA) > 0) { nd++; split(ln, f, ","); ds += f[2]; if (ln ~ /x3y$/) x3++ }
@@ -71,19 +72,53 @@ BEGIN {
 }
 { $2 = toupper($2); if (NR <= 5) print; OFS = "-" }
 END { print NR, NF, length($0); print substr("abcdef", 2, 3), index("foobar", "bar"), tolower("ABC") 1e3, 0.1 + 0.2, 100000 * 100000, "x" 1.0 }
-`, in, data},
+`, in, data, ""},
 		{"dynamic-and-constants", `
 BEGIN { re = "alpha[1-3]"; FS = " "; CONVFMT = "%.3g"; big = 123456789.123 }
 $2 ~ re { d++ }
 { k = "line" NR; if ($1 == k) eq++; v = $3 + 0; if (v > 100 && v < 900) mid++; x = x (NR % 9) }
 NR == 3 { $0 = "re split now"; nf3 = NF }
 END { y = big ""; print d, eq, mid, x, nf3, y; a["p"] = 1; a[1, 2] = 3; print ((1, 2) in a), ("q" in a), length(a); print length() }
-`, in, ""},
+`, in, "", ""},
+		// every regex here is computed at run time: the interpreter's regex cache fills up
+		{Name: "dynamic-regexes", Src: `
+BEGIN { tag = "alpha"; sepv = "a+l" }
+{ for (i = 0; i < 7; i++) if ($2 ~ ("^" tag i "$")) hit[i]++ }
+$1 ~ $2 { same++ }
+$3 ~ ("^" NR * NR "$") { sq++ }
+{ n += split($0, parts, "ph" (NR % 5)); m += split($4, q, "-" "|" "t"); r = "l" "i"; s = $1; c += sub(r "ne", "L" NR, s); d += gsub("[" (NR % 3) "-9]", "#", s) }
+{ if (match($0, "be" "ta-[" NR % 3 "]")) ms += RSTART }
+END { for (i = 0; i < 7; i++) printf "%d ", hit[i]; print same + 0, sq, n, m, c, d, ms; print split("xAAyAz", z, sepv "*") }
+`, Input: in},
+		// more than a hundred distinct printf/sprintf formats: the format cache fills up
+		{Name: "printf-formats", Src: `
+{ for (w = 1; w <= 4; w++) { printf "%" w "d|%-" w "s|%." w "f|%0" (w + 2) "d|", NR, $2, NR / 7, NR; s = s sprintf("%" (w + NR % 9) "x", NR * w) } }
+NR % 10 == 0 { printf "\n%c%c %5.2e %g %i %o %X %u %%\n", 65 + NR % 26, "z", NR, NR / 3, NR, NR, NR * 31, NR }
+END { print ""; print length(s), s }
+`, Input: in},
+		// CSV input with a header (field names, @"name"), CSV output
+		{Name: "csv-modes", Mode: "csv", Src: `
+NR == 1 { print @"name", @"qty" }
+{ tot[@"name"] += @"qty"; n++; if (@"note" ~ ("," "|q")) odd++ }
+END { print n, odd + 0, tot["pear"], tot["fig, dried"]; print "a,b", "say \"hi\"", 3 }
+`, Input: "name,qty,note\npear,3,plain\n\"fig, dried\",4,\"has, comma\"\npear,5,\"a \"\"q\"\"\"\napple,1,x\n"},
+		// TSV input, several streams: getline from two files by name, from stdin, close and reopen
+		{Name: "streams-tsv", Mode: "tsv", Src: `
+BEGIN {
+  while ((getline ln < DATA) > 0) a++
+  close(DATA)
+  while ((getline ln < DATA) > 0) { b++; if (b == 3) break }
+  while ((getline < DATA) > 0) c += NF
+  print a, b, c
+}
+{ k[$2]++; if ((getline nxt) > 0) pairs++ }
+END { print NR, pairs, k["x"], k["y z"] }
+`, Input: "1\tx\tp\n2\ty z\tq\n3\tx\tr\n4\tx\ts\n5\ty z\tt\n", Data: data},
 		{"native-funcs", `
 function wrap(s) { return "<" twice(s) ">" }
 { if (NR % 13 == 0) print wrap($1), addn(NR, 0.5) }
 END { print twice("z"), addn(1, 2) }
-`, in, ""},
+`, in, "", ""},
 	}
 }
 
@@ -103,7 +138,7 @@ func Snapshot(p *parser.Program) string {
 }
 
 func config(w Work, dataPath string, out *bytes.Buffer) *interp.Config {
-	return &interp.Config{
+	c := &interp.Config{
 		Stdin:   strings.NewReader(w.Input),
 		Output:  out,
 		Error:   out,
@@ -112,6 +147,68 @@ func config(w Work, dataPath string, out *bytes.Buffer) *interp.Config {
 		NoExec:  true,
 		Environ: []string{},
 	}
+	switch w.Mode {
+	case "csv":
+		c.InputMode, c.CSVInput.Header, c.OutputMode = interp.CSVMode, true, interp.CSVMode
+	case "tsv":
+		c.InputMode = interp.TSVMode
+	}
+	return c
+}
+
+// FingerprintRun (single goroutine, deterministic): the deep fingerprint of a freshly
+// parsed Program before any execution, after one ExecProgram, and after New + two
+// Executes on the same interpreter.  Returns the step after which it changed ("" = never)
+// and the lines that disappeared / appeared.
+func FingerprintRun(w Work, dir string) (step string, gone, added []string, output string, err error) {
+	dataPath := filepath.Join(dir, "data_"+w.Name+".txt")
+	if err = os.WriteFile(dataPath, []byte(w.Data), 0o644); err != nil {
+		return
+	}
+	prog, perr := parser.ParseProgram([]byte(w.Src), &parser.ParserConfig{Funcs: Funcs()})
+	if perr != nil {
+		err = perr
+		return
+	}
+	before := Fingerprint(prog)
+	check := func(name string) bool {
+		after := Fingerprint(prog)
+		gone, added = FingerprintDiff(before, after, 12)
+		if len(gone)+len(added) > 0 {
+			step = name
+			return true
+		}
+		return false
+	}
+	output = runGuard(func() (string, error) {
+		var out bytes.Buffer
+		return execProgramTimed(prog, config(w, dataPath, &out), &out)
+	})
+	if check("ExecProgram") {
+		return
+	}
+	var it *interp.Interpreter
+	runGuard(func() (string, error) {
+		var e error
+		it, e = interp.New(prog)
+		return "", e
+	})
+	if check("interp.New") || it == nil {
+		return
+	}
+	for r := 0; r < 2; r++ {
+		runGuard(func() (string, error) {
+			var out bytes.Buffer
+			ctx, cancel := context.WithTimeout(context.Background(), ExecTimeout)
+			defer cancel()
+			_, e := it.ExecuteContext(ctx, config(w, dataPath, &out))
+			return "", e
+		})
+		if check(fmt.Sprintf("Interpreter.Execute #%d", r+1)) {
+			return
+		}
+	}
+	return
 }
 
 // Result of running one Work on one shared Program.
@@ -121,6 +218,8 @@ type Result struct {
 	Labels     []string
 	SnapBefore string
 	SnapAfter  string
+	FpBefore   []string // deep fingerprint (fingerprint.go)
+	FpAfter    []string
 	ParseErr   error
 }
 
@@ -169,8 +268,8 @@ func runGuard(f func() (string, error)) (s string) {
 	return out
 }
 
-// RunShared: reference run; then on ONE Program: `seq` executions one after another,
-// then `goroutines` goroutines at the same time, each with its own interpreter
+// RunShared: reference run; then on ONE Program: `goroutines` goroutines at the same time, then
+// `seq` executions one after another, each with its own interpreter
 // (interp.New + Execute, `rounds` times each, and ExecProgram).
 func RunShared(w Work, dir string, seq, goroutines, rounds int) Result {
 	var res Result
@@ -195,6 +294,7 @@ func RunShared(w Work, dir string, seq, goroutines, rounds int) Result {
 		return res
 	}
 	res.SnapBefore = Snapshot(prog)
+	res.FpBefore = Fingerprint(prog)
 	add := func(mu *sync.Mutex, label, out string) {
 		if mu != nil {
 			mu.Lock()
@@ -208,9 +308,6 @@ func RunShared(w Work, dir string, seq, goroutines, rounds int) Result {
 			var out bytes.Buffer
 			return execProgramTimed(prog, config(w, dataPath, &out), &out)
 		})
-	}
-	for i := 0; i < seq; i++ {
-		add(nil, fmt.Sprintf("sequential-%d", i), execProgram())
 	}
 	var mu sync.Mutex
 	var wg sync.WaitGroup
@@ -247,8 +344,14 @@ func RunShared(w Work, dir string, seq, goroutines, rounds int) Result {
 			}
 		}(g)
 	}
+	// the goroutines first, on the Program nobody has executed yet: a cache that execution
+	// fills and that is (wrongly) shared is then written by all of them at once
 	close(start)
 	wg.Wait()
+	for i := 0; i < seq; i++ {
+		add(nil, fmt.Sprintf("sequential-%d", i), execProgram())
+	}
 	res.SnapAfter = Snapshot(prog)
+	res.FpAfter = Fingerprint(prog)
 	return res
 }
